@@ -32,14 +32,14 @@ var c09Once sync.Once
 func init() {
 	Registry["C09"] = &Prop{
 		Plan: func(tier string) Plan {
-			return Plan{Level: "fault_enumeration", NCases: pick(tier, 8*c09Chunks, 120*c09Chunks), Batch: 1, CaseTimeout: 600,
+			return Plan{Level: "fault_enumeration", NCases: pick(tier, 8*c09Chunks, 600*c09Chunks), Batch: 1, CaseTimeout: 600,
 				Rule: "histories are PRNG sequential scripts of 10-30 writes over 3-5 keys, rebuilt on a fresh engine for every execution; for EVERY write batch position p=1..D of the history (split over 4 cases per history) the engine's answer to that batch is replaced by storage.NewErrUncertainResult in both variants (batch applied / not applied); " +
 					"for the applied variant three more executions also fault the repair write of the retry loop (unknown+applied / unknown+not applied / definite storage error). The script then continues with writes to the same and other keys (expectations refreshed by Get, as a client would). Retry intervals 30ms/10ms via the verif hook. " +
 					"oracle: faulted call answers an error; later writes flow and become readable; Compact while unresolved stays below the unresolved revision; after the retry queue is empty and the sequencer quiescent: Get/List == highest landed write per key in the storage-boundary log, acknowledged successes landed, failed ones did not, and pre-fault List + delivered watch events == final List. " +
 					"evaluations = executions; non-trivial+distinct = executions whose injected unknown outcome fired, identified by (history, position, variant)",
 				Assumptions: []string{"unknown outcomes are injected by a wrapper at the storage.KvStorage boundary (real TiKV timeouts are not reachable)",
 					"quiescence is decided on retry-queue length and sequencer state read through verif hooks, not on elapsed time"},
-				MinConcl: pick(tier, 24, 400)}
+				MinConcl: pick(tier, 24, 2000)}
 		},
 		Name: func(c *harness.Case) string {
 			h := c.Index / c09Chunks
